@@ -14,8 +14,10 @@ import (
 	"os"
 	"path"
 	"path/filepath"
+	"regexp"
 	"runtime"
 	"sort"
+	"strconv"
 	"strings"
 	"sync"
 	"syscall"
@@ -55,8 +57,55 @@ type ssSrv struct {
 	done     chan struct{}
 	serveErr error
 	fs       *cntFS
+	dbg      *ssDbgBuf // os + cfg.Debug: what the server wrote to its debug stream
 	OS       *sftp.Server
 	RS       *sftp.RequestServer
+}
+
+// ssDbgBuf is the writer handed to sftp.WithDebug.
+type ssDbgBuf struct {
+	mu sync.Mutex
+	b  []byte
+}
+
+func (d *ssDbgBuf) Write(p []byte) (int, error) {
+	d.mu.Lock()
+	defer d.mu.Unlock()
+	d.b = append(d.b, p...)
+	return len(p), nil
+}
+
+func (d *ssDbgBuf) lines() []string {
+	d.mu.Lock()
+	defer d.mu.Unlock()
+	var out []string
+	for _, l := range strings.Split(string(d.b), "\n") {
+		if l != "" {
+			out = append(out, l)
+		}
+	}
+	return out
+}
+
+var ssDbgQuoted = regexp.MustCompile(`"((?:[^"\\]|\\.)*)"`)
+
+// ssDbgLeftOpen returns the handles the debug stream reports as left open (the first quoted string of
+// every line that says "left open"), and the lines it could not read that way.
+func ssDbgLeftOpen(lines []string) (handles []string, unread []string) {
+	for _, l := range lines {
+		if !strings.Contains(l, "left open") {
+			unread = append(unread, l)
+			continue
+		}
+		m := ssDbgQuoted.FindString(l)
+		h, err := strconv.Unquote(m)
+		if m == "" || err != nil {
+			unread = append(unread, l)
+			continue
+		}
+		handles = append(handles, h)
+	}
+	return handles, unread
 }
 
 var errSSTimeout = errors.New("timeout")
@@ -74,10 +123,17 @@ func ssStart(cfg ssCfg, tree string, fs *cntFS) (*ssSrv, error) {
 			opts = append(opts, sftp.WithAllocator())
 		}
 		if cfg.WorkDir {
-			opts = append(opts, sftp.WithServerWorkingDirectory(tree))
+			opts = append(opts, sftp.WithServerWorkingDirectory(filepath.Join(tree, cfg.Start)))
 		}
 		if cfg.MaxTx != 0 {
 			opts = append(opts, sftp.WithMaxTxPacket(cfg.MaxTx))
+		}
+		if cfg.RO {
+			opts = append(opts, sftp.ReadOnly())
+		}
+		if cfg.Debug {
+			s.dbg = &ssDbgBuf{}
+			opts = append(opts, sftp.WithDebug(s.dbg))
 		}
 		srv, err := sftp.NewServer(rwc, opts...)
 		if err != nil {
@@ -90,15 +146,23 @@ func ssStart(cfg ssCfg, tree string, fs *cntFS) (*ssSrv, error) {
 		if cfg.Alloc {
 			opts = append(opts, sftp.WithRSAllocator())
 		}
-		if cfg.WorkDir {
+		switch {
+		case cfg.Start != "":
+			opts = append(opts, sftp.WithStartDirectory(cfg.Start))
+		case cfg.WorkDir:
 			opts = append(opts, sftp.WithStartDirectory("/"))
 		}
 		if cfg.MaxTx != 0 {
 			opts = append(opts, sftp.WithRSMaxTxPacket(cfg.MaxTx))
 		}
-		h := sftp.Handlers{FileGet: fs, FilePut: fs, FileCmd: fs, FileList: fs}
+		var h sftp.Handlers
 		if cfg.InMem {
 			h = sftp.InMemHandler()
+		} else {
+			h = cntHandlers(fs, cfg)
+			if why := cntHandlersSelfTest(h, cfg); why != "" {
+				return nil, errors.New("handler variant self-test: " + why)
+			}
 		}
 		s.RS = sftp.NewRequestServer(rwc, h, opts...)
 		serve = s.RS.Serve
@@ -187,8 +251,9 @@ func (s *ssSrv) Drain() []wire.Pkt {
 
 // ---------- scratch tree (os-backed) ----------
 
-func ssMkTree(tree, kind string) error {
+func ssMkTree(tree, kind, start string) error {
 	os.RemoveAll(tree)
+	tree = filepath.Join(tree, start) // the standard tree lives below the start directory
 	if err := os.MkdirAll(tree, 0o755); err != nil {
 		return err
 	}
@@ -275,6 +340,8 @@ type cntObj struct {
 	Writes       int
 	Lists        int
 	TEAfterClose bool
+	HasClose     bool // the value handed to the server implements io.Closer (set from a type assertion on that value)
+	HasTE        bool // … implements sftp.TransferError
 	closeErr     bool // the first Close returns an error
 	ctx          context.Context
 }
@@ -282,6 +349,8 @@ type cntObj struct {
 type cntFS struct {
 	closeErrPct  int
 	closeErrSeed uint32
+	// optional interfaces the handler OBJECTS do not implement (ssCfg.Without: closer, terr, alt)
+	noCloser, noTE, alt bool
 
 	mu    sync.Mutex
 	nodes map[string]*cntNode
@@ -309,19 +378,23 @@ func (f *cntFS) failedOpenStates() []bool {
 	return out
 }
 
-func newCntFS(kind string) *cntFS {
+// newCntFS builds the in-memory tree; the standard tree lives below start ("" = the root).
+func newCntFS(kind, start string) *cntFS {
 	f := &cntFS{nodes: map[string]*cntNode{"/": {dir: true, mode: 0o755}}}
+	for p := start; p != "" && p != "/" && p != "."; p = path.Dir(p) {
+		f.nodes[p] = &cntNode{dir: true, mode: 0o755}
+	}
 	if kind == "empty" {
 		return f
 	}
-	f.nodes["/d"] = &cntNode{dir: true, mode: 0o755}
-	f.nodes["/e"] = &cntNode{dir: true, mode: 0o755}
-	f.nodes["/a.txt"] = &cntNode{data: []byte(ssATxt), mode: 0o644}
-	f.nodes["/b.bin"] = &cntNode{data: ssData(4096), mode: 0o644}
-	f.nodes["/d/x"] = &cntNode{data: []byte("x"), mode: 0o644}
-	f.nodes["/d/y"] = &cntNode{data: []byte("yy"), mode: 0o600}
-	f.nodes["/ln"] = &cntNode{link: "a.txt", mode: 0o777}
-	f.nodes["/dl"] = &cntNode{link: "d", mode: 0o777}
+	f.nodes[start+"/d"] = &cntNode{dir: true, mode: 0o755}
+	f.nodes[start+"/e"] = &cntNode{dir: true, mode: 0o755}
+	f.nodes[start+"/a.txt"] = &cntNode{data: []byte(ssATxt), mode: 0o644}
+	f.nodes[start+"/b.bin"] = &cntNode{data: ssData(4096), mode: 0o644}
+	f.nodes[start+"/d/x"] = &cntNode{data: []byte("x"), mode: 0o644}
+	f.nodes[start+"/d/y"] = &cntNode{data: []byte("yy"), mode: 0o600}
+	f.nodes[start+"/ln"] = &cntNode{link: "a.txt", mode: 0o777}
+	f.nodes[start+"/dl"] = &cntNode{link: "d", mode: 0o777}
 	return f
 }
 
@@ -372,7 +445,7 @@ func (f *cntFS) Fileread(r *sftp.Request) (_ io.ReaderAt, err error) {
 	if n.dir {
 		return nil, syscall.EISDIR
 	}
-	return cntReader{f.newObj("reader", r.Filepath, n, r)}, nil
+	return f.reader(f.newObj("reader", r.Filepath, n, r)), nil
 }
 
 func (f *cntFS) openW(r *sftp.Request) (*cntNode, error) {
@@ -410,7 +483,7 @@ func (f *cntFS) Filewrite(r *sftp.Request) (_ io.WriterAt, err error) {
 	if err != nil {
 		return nil, err
 	}
-	return cntWriter{f.newObj("writer", r.Filepath, n, r)}, nil
+	return f.writer(f.newObj("writer", r.Filepath, n, r)), nil
 }
 
 func (f *cntFS) OpenFile(r *sftp.Request) (_ sftp.WriterAtReaderAt, err error) {
@@ -422,7 +495,7 @@ func (f *cntFS) OpenFile(r *sftp.Request) (_ sftp.WriterAtReaderAt, err error) {
 	if err != nil {
 		return nil, err
 	}
-	return cntRW{f.newObj("rw", r.Filepath, n, r)}, nil
+	return f.readWriter(f.newObj("rw", r.Filepath, n, r)), nil
 }
 
 type cntInfo struct {
@@ -475,7 +548,7 @@ func (f *cntFS) Filelist(r *sftp.Request) (_ sftp.ListerAt, err error) {
 		for _, q := range names {
 			o.ents = append(o.ents, cntInfo{path.Base(q), f.nodes[q]})
 		}
-		return cntLister{o}, nil
+		return f.lister(o), nil
 	case "Stat":
 		_, n := f.resolve(r.Filepath)
 		if n == nil {
@@ -483,7 +556,7 @@ func (f *cntFS) Filelist(r *sftp.Request) (_ sftp.ListerAt, err error) {
 		}
 		o := f.newObj("statlister", r.Filepath, n, r)
 		o.ents = []os.FileInfo{cntInfo{path.Base(r.Filepath), n}}
-		return cntLister{o}, nil
+		return f.lister(o), nil
 	case "Readlink":
 		n := f.nodes[r.Filepath]
 		if n == nil {
@@ -494,7 +567,7 @@ func (f *cntFS) Filelist(r *sftp.Request) (_ sftp.ListerAt, err error) {
 		}
 		o := f.newObj("statlister", r.Filepath, n, r)
 		o.ents = []os.FileInfo{cntInfo{n.link, n}}
-		return cntLister{o}, nil
+		return f.lister(o), nil
 	}
 	return nil, fmt.Errorf("unexpected list method %q", r.Method)
 }
@@ -509,7 +582,7 @@ func (f *cntFS) Lstat(r *sftp.Request) (sftp.ListerAt, error) {
 	}
 	o := f.newObj("statlister", r.Filepath, n, r)
 	o.ents = []os.FileInfo{cntInfo{path.Base(r.Filepath), n}}
-	return cntLister{o}, nil
+	return f.lister(o), nil
 }
 
 func (f *cntFS) Filecmd(r *sftp.Request) error {
@@ -721,26 +794,345 @@ func (o *cntObj) transferError(err error) {
 	}
 }
 
-// distinct types, so that each object only offers the methods of its role
-type cntReader struct{ o *cntObj }
-type cntWriter struct{ o *cntObj }
-type cntRW struct{ o *cntObj }
-type cntLister struct{ o *cntObj }
+// The values handed to the server are assembled from method-carrying parts by struct embedding, so
+// that each value offers exactly the methods of its role AND of its variant: with or without Close
+// (io.Closer), with or without TransferError.  Which variant an object gets is a configuration
+// dimension (ssCfg.Without); what the value really implements is read back with type assertions
+// (cntObj.HasClose / HasTE) and is what the expectations are stated in.
+type cntRdPart struct{ o *cntObj }
+type cntWrPart struct{ o *cntObj }
+type cntLsPart struct{ o *cntObj }
+type cntClosePart struct{ o *cntObj }
+type cntTEPart struct{ o *cntObj }
 
-func (x cntReader) ReadAt(p []byte, off int64) (int, error)  { return x.o.readAt(p, off) }
-func (x cntReader) Close() error                             { return x.o.close() }
-func (x cntReader) TransferError(err error)                  { x.o.transferError(err) }
-func (x cntWriter) WriteAt(p []byte, off int64) (int, error) { return x.o.writeAt(p, off) }
-func (x cntWriter) Close() error                             { return x.o.close() }
-func (x cntWriter) TransferError(err error)                  { x.o.transferError(err) }
-func (x cntRW) ReadAt(p []byte, off int64) (int, error)      { return x.o.readAt(p, off) }
-func (x cntRW) WriteAt(p []byte, off int64) (int, error)     { return x.o.writeAt(p, off) }
-func (x cntRW) Close() error                                 { return x.o.close() }
-func (x cntRW) TransferError(err error)                      { x.o.transferError(err) }
-func (x cntLister) ListAt(l []os.FileInfo, off int64) (int, error) {
+func (x cntRdPart) ReadAt(p []byte, off int64) (int, error)  { return x.o.readAt(p, off) }
+func (x cntWrPart) WriteAt(p []byte, off int64) (int, error) { return x.o.writeAt(p, off) }
+func (x cntLsPart) ListAt(l []os.FileInfo, off int64) (int, error) {
 	return x.o.listAt(l, off)
 }
-func (x cntLister) Close() error { return x.o.close() }
+func (x cntClosePart) Close() error         { return x.o.close() }
+func (x cntTEPart) TransferError(err error) { x.o.transferError(err) }
+
+type (
+	cntReader struct {
+		cntRdPart
+		cntClosePart
+		cntTEPart
+	}
+	cntReaderNoClose struct {
+		cntRdPart
+		cntTEPart
+	}
+	cntReaderNoTE struct {
+		cntRdPart
+		cntClosePart
+	}
+	cntReaderBare struct{ cntRdPart }
+
+	cntWriter struct {
+		cntWrPart
+		cntClosePart
+		cntTEPart
+	}
+	cntWriterNoClose struct {
+		cntWrPart
+		cntTEPart
+	}
+	cntWriterNoTE struct {
+		cntWrPart
+		cntClosePart
+	}
+	cntWriterBare struct{ cntWrPart }
+
+	cntRW struct {
+		cntRdPart
+		cntWrPart
+		cntClosePart
+		cntTEPart
+	}
+	cntRWNoClose struct {
+		cntRdPart
+		cntWrPart
+		cntTEPart
+	}
+	cntRWNoTE struct {
+		cntRdPart
+		cntWrPart
+		cntClosePart
+	}
+	cntRWBare struct {
+		cntRdPart
+		cntWrPart
+	}
+
+	cntLister struct {
+		cntLsPart
+		cntClosePart
+	}
+	cntListerBare struct{ cntLsPart }
+)
+
+// variant says which optional methods object o loses (f.mu held).
+func (f *cntFS) variant(o *cntObj) (noClose, noTE bool) {
+	if f.alt && o.ID%2 != 0 {
+		return false, false
+	}
+	return f.noCloser, f.noTE
+}
+
+// seal reads back what the value really implements.
+func (o *cntObj) seal(v any) {
+	_, o.HasClose = v.(io.Closer)
+	_, o.HasTE = v.(sftp.TransferError)
+}
+
+func (f *cntFS) reader(o *cntObj) (v io.ReaderAt) {
+	nc, nt := f.variant(o)
+	switch {
+	case nc && nt:
+		v = cntReaderBare{cntRdPart{o}}
+	case nc:
+		v = cntReaderNoClose{cntRdPart{o}, cntTEPart{o}}
+	case nt:
+		v = cntReaderNoTE{cntRdPart{o}, cntClosePart{o}}
+	default:
+		v = cntReader{cntRdPart{o}, cntClosePart{o}, cntTEPart{o}}
+	}
+	o.seal(v)
+	return v
+}
+
+func (f *cntFS) writer(o *cntObj) (v io.WriterAt) {
+	nc, nt := f.variant(o)
+	switch {
+	case nc && nt:
+		v = cntWriterBare{cntWrPart{o}}
+	case nc:
+		v = cntWriterNoClose{cntWrPart{o}, cntTEPart{o}}
+	case nt:
+		v = cntWriterNoTE{cntWrPart{o}, cntClosePart{o}}
+	default:
+		v = cntWriter{cntWrPart{o}, cntClosePart{o}, cntTEPart{o}}
+	}
+	o.seal(v)
+	return v
+}
+
+func (f *cntFS) readWriter(o *cntObj) (v sftp.WriterAtReaderAt) {
+	nc, nt := f.variant(o)
+	switch {
+	case nc && nt:
+		v = cntRWBare{cntRdPart{o}, cntWrPart{o}}
+	case nc:
+		v = cntRWNoClose{cntRdPart{o}, cntWrPart{o}, cntTEPart{o}}
+	case nt:
+		v = cntRWNoTE{cntRdPart{o}, cntWrPart{o}, cntClosePart{o}}
+	default:
+		v = cntRW{cntRdPart{o}, cntWrPart{o}, cntClosePart{o}, cntTEPart{o}}
+	}
+	o.seal(v)
+	return v
+}
+
+func (f *cntFS) lister(o *cntObj) (v sftp.ListerAt) {
+	if nc, _ := f.variant(o); nc {
+		v = cntListerBare{cntLsPart{o}}
+	} else {
+		v = cntLister{cntLsPart{o}, cntClosePart{o}}
+	}
+	o.seal(v)
+	return v
+}
+
+// ---------- handler variants: which optional handler interfaces the four handlers implement ----------
+
+type cntGetH struct{ f *cntFS }
+type cntPutH struct{ f *cntFS }
+type cntOpenFilePart struct{ f *cntFS }
+type cntCmdH struct{ f *cntFS }
+type cntPosixRenamePart struct{ f *cntFS }
+type cntStatVFSPart struct{ f *cntFS }
+type cntListH struct{ f *cntFS }
+type cntLstatPart struct{ f *cntFS }
+
+func (h cntGetH) Fileread(r *sftp.Request) (io.ReaderAt, error)  { return h.f.Fileread(r) }
+func (h cntPutH) Filewrite(r *sftp.Request) (io.WriterAt, error) { return h.f.Filewrite(r) }
+func (h cntOpenFilePart) OpenFile(r *sftp.Request) (sftp.WriterAtReaderAt, error) {
+	return h.f.OpenFile(r)
+}
+func (h cntCmdH) Filecmd(r *sftp.Request) error                { return h.f.Filecmd(r) }
+func (h cntPosixRenamePart) PosixRename(r *sftp.Request) error { return h.f.PosixRename(r) }
+func (h cntStatVFSPart) StatVFS(r *sftp.Request) (*sftp.StatVFS, error) {
+	return h.f.StatVFS(r)
+}
+func (h cntListH) Filelist(r *sftp.Request) (sftp.ListerAt, error)  { return h.f.Filelist(r) }
+func (h cntLstatPart) Lstat(r *sftp.Request) (sftp.ListerAt, error) { return h.f.Lstat(r) }
+
+type (
+	cntPutOpenH struct {
+		cntPutH
+		cntOpenFilePart
+	}
+	cntCmdPosixH struct {
+		cntCmdH
+		cntPosixRenamePart
+	}
+	cntCmdVFSH struct {
+		cntCmdH
+		cntStatVFSPart
+	}
+	cntCmdPosixVFSH struct {
+		cntCmdH
+		cntPosixRenamePart
+		cntStatVFSPart
+	}
+	cntListLstatH struct {
+		cntListH
+		cntLstatPart
+	}
+)
+
+// cntHandlers returns the four handlers for cfg.  Without any handler-level token it is the
+// all-in-one cntFS itself (one value implementing everything, as before); otherwise four separate
+// values each offering exactly its role and the optional interfaces that were not taken away.
+func cntHandlers(f *cntFS, cfg ssCfg) sftp.Handlers {
+	f.noCloser, f.noTE, f.alt = cfg.without("closer"), cfg.without("terr"), cfg.without("alt")
+	nOpen, nLstat, nPosix, nVFS := cfg.without("openfile"), cfg.without("lstat"), cfg.without("posixrename"), cfg.without("statvfs")
+	if !nOpen && !nLstat && !nPosix && !nVFS {
+		return sftp.Handlers{FileGet: f, FilePut: f, FileCmd: f, FileList: f}
+	}
+	h := sftp.Handlers{FileGet: cntGetH{f}}
+	if nOpen {
+		h.FilePut = cntPutH{f}
+	} else {
+		h.FilePut = cntPutOpenH{cntPutH{f}, cntOpenFilePart{f}}
+	}
+	switch {
+	case nPosix && nVFS:
+		h.FileCmd = cntCmdH{f}
+	case nPosix:
+		h.FileCmd = cntCmdVFSH{cntCmdH{f}, cntStatVFSPart{f}}
+	case nVFS:
+		h.FileCmd = cntCmdPosixH{cntCmdH{f}, cntPosixRenamePart{f}}
+	default:
+		h.FileCmd = cntCmdPosixVFSH{cntCmdH{f}, cntPosixRenamePart{f}, cntStatVFSPart{f}}
+	}
+	if nLstat {
+		h.FileList = cntListH{f}
+	} else {
+		h.FileList = cntListLstatH{cntListH{f}, cntLstatPart{f}}
+	}
+	return h
+}
+
+// cntVariantsSelfTest runs the type-assertion self-test over a list of configurations without starting a
+// server, and checks that the self-test itself is not blind (handlers built for one configuration must
+// fail the test of another).  It returns the complaints and the number of configurations tested.
+func cntVariantsSelfTest(cfgs []ssCfg) (bad []string, n int) {
+	for _, cfg := range cfgs {
+		if cfg.Kind != "rs" || cfg.InMem {
+			continue
+		}
+		n++
+		if why := cntHandlersSelfTest(cntHandlers(newCntFS("", cfg.Start), cfg), cfg); why != "" {
+			bad = append(bad, cfg.String()+": "+why)
+		}
+	}
+	full := ssCfg{Kind: "rs"}
+	for _, tok := range []string{"openfile", "lstat", "posixrename", "statvfs"} {
+		other := ssCfg{Kind: "rs", Without: tok}
+		if cntHandlersSelfTest(cntHandlers(newCntFS("", ""), full), other) == "" {
+			bad = append(bad, "self-test is blind: handlers with every interface pass the test for without="+tok)
+		}
+		if cntHandlersSelfTest(cntHandlers(newCntFS("", ""), other), full) == "" {
+			bad = append(bad, "self-test is blind: handlers without "+tok+" pass the test for the full set")
+		}
+	}
+	// object level: a value with Close must not pass for a configuration without, and the other way round
+	g := &cntFS{}
+	o := &cntObj{fs: g, ID: 2}
+	g.reader(o)
+	if !o.HasClose || !o.HasTE {
+		bad = append(bad, "self-test: the full reader variant does not report Close and TransferError")
+	}
+	g.noCloser, g.noTE = true, true
+	g.reader(o)
+	if o.HasClose || o.HasTE {
+		bad = append(bad, "self-test: the bare reader variant still reports Close or TransferError")
+	}
+	return bad, n
+}
+
+// cntHandlersSelfTest checks by type assertion that the handlers implement exactly the optional
+// interfaces cfg leaves them, and that the object variants do ("" = fine).
+func cntHandlersSelfTest(h sftp.Handlers, cfg ssCfg) string {
+	for _, t := range strings.Split(cfg.Without, ",") {
+		switch t {
+		case "", "closer", "terr", "alt", "openfile", "lstat", "posixrename", "statvfs":
+		default:
+			return fmt.Sprintf("unknown token %q in without=%q", t, cfg.Without)
+		}
+	}
+	chk := func(name string, has, want bool) string {
+		if has != want {
+			return fmt.Sprintf("%s: implemented=%v, configuration %q wants %v", name, has, cfg.Without, want)
+		}
+		return ""
+	}
+	_, a := h.FilePut.(sftp.OpenFileWriter)
+	_, b := h.FileList.(sftp.LstatFileLister)
+	_, c := h.FileCmd.(sftp.PosixRenameFileCmder)
+	_, d := h.FileCmd.(sftp.StatVFSFileCmder)
+	for _, why := range []string{
+		chk("FilePut as OpenFileWriter", a, !cfg.without("openfile")),
+		chk("FileList as LstatFileLister", b, !cfg.without("lstat")),
+		chk("FileCmd as PosixRenameFileCmder", c, !cfg.without("posixrename")),
+		chk("FileCmd as StatVFSFileCmder", d, !cfg.without("statvfs")),
+	} {
+		if why != "" {
+			return why
+		}
+	}
+	// never offered by any variant (the server's defaults are what the sessions expect)
+	if _, ok := h.FileList.(sftp.RealPathFileLister); ok {
+		return "FileList unexpectedly implements RealPathFileLister"
+	}
+	if _, ok := h.FileList.(sftp.ReadlinkFileLister); ok {
+		return "FileList unexpectedly implements ReadlinkFileLister"
+	}
+	// object variants, on a scratch cntFS with the same switches
+	g := &cntFS{noCloser: cfg.without("closer"), noTE: cfg.without("terr"), alt: cfg.without("alt")}
+	for id := 1; id <= 2; id++ {
+		hit := !g.alt || id%2 == 0
+		wantC, wantT := !(g.noCloser && hit), !(g.noTE && hit)
+		for _, kind := range []string{"reader", "writer", "rw", "lister"} {
+			o := &cntObj{fs: g, ID: id, Kind: kind}
+			var v any
+			switch kind {
+			case "reader":
+				v = g.reader(o)
+			case "writer":
+				v = g.writer(o)
+			case "rw":
+				v = g.readWriter(o)
+			case "lister":
+				v = g.lister(o)
+			}
+			_, hasC := v.(io.Closer)
+			_, hasT := v.(sftp.TransferError)
+			_, isR := v.(io.ReaderAt)
+			_, isW := v.(io.WriterAt)
+			_, isL := v.(sftp.ListerAt)
+			wantT := wantT && kind != "lister" // a ListerAt is never told about transfer errors: no variant has the method
+			wantR, wantW, wantL := kind == "reader" || kind == "rw", kind == "writer" || kind == "rw", kind == "lister"
+			if hasC != wantC || hasT != wantT || isR != wantR || isW != wantW || isL != wantL || o.HasClose != hasC || o.HasTE != hasT {
+				return fmt.Sprintf("%s object #%d (%T) under without=%q: Closer=%v (want %v) TransferError=%v (want %v) ReaderAt=%v WriterAt=%v ListerAt=%v recorded=%v/%v",
+					kind, id, v, cfg.Without, hasC, wantC, hasT, wantT, isR, isW, isL, o.HasClose, o.HasTE)
+			}
+		}
+	}
+	return ""
+}
 
 // dump is a canonical description of the in-memory tree.
 func (f *cntFS) dump() string {
@@ -777,6 +1169,15 @@ type cntObjState struct {
 	Kind, Path                    string
 	Closed, TE, Reads, Writes, Ls int
 	TEAfterClose, CtxDone         bool
+	HasClose, HasTE               bool
+}
+
+// wantClosed is how often a released object must have been closed: once if it can be closed at all.
+func (o cntObjState) wantClosed() int {
+	if o.HasClose {
+		return 1
+	}
+	return 0
 }
 
 func (f *cntFS) objStates() []cntObjState {
@@ -784,7 +1185,7 @@ func (f *cntFS) objStates() []cntObjState {
 	defer f.mu.Unlock()
 	var out []cntObjState
 	for _, o := range f.objs {
-		out = append(out, cntObjState{o.ID, o.Kind, o.Path, o.Closed, o.TE, o.Reads, o.Writes, o.Lists, o.TEAfterClose, o.ctx.Err() != nil})
+		out = append(out, cntObjState{o.ID, o.Kind, o.Path, o.Closed, o.TE, o.Reads, o.Writes, o.Lists, o.TEAfterClose, o.ctx.Err() != nil, o.HasClose, o.HasTE})
 	}
 	return out
 }
@@ -1120,6 +1521,29 @@ func ssHandleKind(q ssReq) string {
 	return "r"
 }
 
+// handleKind is the kind of the handle an answered OPEN / OPENDIR issues under this configuration:
+// a request server whose FilePut is no OpenFileWriter serves read-write opens through Filewrite,
+// so the handle is a write handle (READ on it does not fit).
+func (t *ssTrack) handleKind(q ssReq) string {
+	k := ssHandleKind(q)
+	if k == "rw" && t.cfg.Kind == "rs" && !t.cfg.InMem && t.cfg.without("openfile") {
+		return "w"
+	}
+	return k
+}
+
+// ssModifies: the request kinds a read-only server must refuse (an OPEN when it asks for write
+// access, creation or truncation).
+func ssModifies(q ssReq) bool {
+	switch q.Kind {
+	case "write", "setstat", "fsetstat", "remove", "mkdir", "rmdir", "rename", "symlink", "ext:posix-rename@openssh.com", "ext:hardlink@openssh.com":
+		return true
+	case "open":
+		return q.Pf&(wire.FWrite|wire.FCreat|wire.FTrunc) != 0
+	}
+	return false
+}
+
 // mismatch: the request kind does not fit the kind of its (live) handle.
 func ssMismatch(reqKind, hKind string) bool {
 	switch reqKind {
@@ -1165,6 +1589,13 @@ func (t *ssTrack) observe(q ssReq, rep wire.Pkt) []ssFinding {
 			out = append(out, ssFinding{Key: fmt.Sprintf("%s/stale-handle-accepted/%s", k, q.Kind), What: fmt.Sprintf("%s naming the never-issued or closed handle %q was not refused", q.Kind, q.Handle), Expected: "failure STATUS", Actual: ssReplyText(rep)})
 		}
 	}
+	// ReadOnly(): a modifying request is refused with PERMISSION_DENIED.  (A request that is to be refused
+	// for another reason as well — stale handle, short attribute block — may name either reason.)
+	if t.cfg.RO && k == "os" && ssModifies(q) && !q.Soft && !(q.HasHandle && !live) {
+		if code, isStatus := ssStatusCode(rep); !isStatus || code != wire.PermissionDenied {
+			out = append(out, ssFinding{Key: "os/readonly-not-denied/" + q.Kind, What: fmt.Sprintf("read-only server: %s (pflags %#x) was not refused with PERMISSION_DENIED", q.Kind, q.Pf), Expected: "STATUS code=3", Actual: ssReplyText(rep)})
+		}
+	}
 	if q.Soft {
 		if code, isStatus := ssStatusCode(rep); !isStatus || code == wire.OK {
 			out = append(out, ssFinding{Key: k + "/short-attrs-dispatched", What: q.Kind + " whose attribute block is shorter than its flags promise was not refused", Expected: "failure STATUS", Actual: ssReplyText(rep)})
@@ -1181,7 +1612,7 @@ func (t *ssTrack) observe(q ssReq, rep wire.Pkt) []ssFinding {
 			out = append(out, ssFinding{Key: k + "/handle-reused", What: "a handle string was issued twice in one session", Actual: fmt.Sprintf("%q", h)})
 		}
 		t.issued[h] = true
-		t.live[h] = ssHandleKind(q)
+		t.live[h] = t.handleKind(q)
 		t.order = append(t.order, h)
 	}
 	return out
